@@ -1,5 +1,6 @@
 //! vharness: runs the implementation (/repo/ddnnife, feature `verif`) on generated cases and
 //! writes case blocks that the OCaml driver (extracted Coq model + spec oracles) judges.
+mod cnfc;
 mod common;
 mod gen;
 mod rng;
